@@ -544,9 +544,15 @@ def r9_every_emitting_statement_is_marked(ctx, rule="C05.R9"):
             flags = dict(env)
             for stt in body.blocks[b]["s"]:
                 if stt["k"] == "assign" and not stt["p"][1]:
-                    k = stt["r"].get("o", {}).get("k") if stt["r"]["k"] == "use" else None
+                    r_ = stt["r"]
+                    k = r_.get("o", {}).get("k") if r_["k"] == "use" else None
+                    src = mir.op_place(r_["o"]) if r_["k"] in ("use", "un") and isinstance(r_.get("o"), dict) else None
                     if k is not None and k.get("ty") == "bool" and "int" in k:
                         flags[stt["p"][0]] = k["int"]
+                    elif src is not None and not src[1] and src[0] in flags and r_["k"] == "use":
+                        flags[stt["p"][0]] = flags[src[0]]          # `let is_comment = matches!(..)`
+                    elif src is not None and not src[1] and src[0] in flags and r_.get("op") == "Not":
+                        flags[stt["p"][0]] = 1 - flags[src[0]]      # `!is_comment`
                     else:
                         flags.pop(stt["p"][0], None)
             t = body.term(b)
